@@ -1295,6 +1295,11 @@ func (s *Store) GetRelatedAtTime(from *RelatedFrom, limit int) ([]qresult, *Rela
 				}
 
 				if s.deletedSet()[datasetID] || !datasetIncluded {
+					// the row the previous page ended on may belong to a dataset that has been deleted since: the
+					// page still starts behind it
+					if !hasReachedStartKey && bytes.Equal(k[:40], from.RelationIndexFromKey) {
+						hasReachedStartKey = true
+					}
 					continue
 				}
 
